@@ -1,8 +1,9 @@
 """C09 - embedder configuration applies uniformly at every nesting level."""
 import hashlib, json, os
+from ..par import SafePool
 from ..common import Report
 from .. import vmcheck, vmmc, tlc
-from ..gen.progs import push, op, b1, InvokeContract
+from ..gen.progs import push, op, b1, u16, block, InvokeContract
 from ..gen.runs import SigExt, NOW
 from ..observe import fkey
 from ..ref import ed25519 as E, opsem
@@ -59,6 +60,10 @@ def build_data():
         ('eval_return', push(op('RETURN')) + op('EVAL') + push(b'\x09'), [_fl({}), _fl({'eval_return': True})]),
         ('unset_flag', op('UNSET_FLAG', b'\x01\x01') + push(SEED) + op('DERIVE_SCALAR'), [_fl({})]),
         ('set_flag', op('SET_FLAG', b'\x01\x01') + push(SEED) + op('DERIVE_SCALAR'), [_fl({1: False})]),
+        # limits: the family runs with callstack_limit = 8 (not the default 128): a loop that never ends by itself and a
+        # self-recursive function must be stopped by that limit at every nesting level
+        ('loop_limit', op('TRUE') + block('LOOP', op('TRUE')), [_fl({})]),
+        ('call_depth', op('DEF', b1(5), u16(2), op('CALL', b1(5))) + op('CALL', b1(5)), [_fl({})]),
     ]
     plist = []
     for name, code, settings in probes:
@@ -119,7 +124,7 @@ def mc_cfg(rep: Report, depth: int):
     import multiprocessing as mp
     n = vmcheck.NPROC * 4
     chunks = [res.records[i::n] for i in range(n)]
-    with mp.get_context('fork').Pool(vmcheck.NPROC) as pool:
+    with SafePool(vmcheck.NPROC) as pool:
         outs = pool.map(_replay_cfg, chunks)
     bad = 0
     for ci, out in enumerate(outs):
@@ -143,8 +148,9 @@ def mc_cfg(rep: Report, depth: int):
 
 def main(tier: str, seed: int) -> int:
     rep = Report('C09', tier, seed)
-    rep.rule = ('MC: TapeVMMC family cfg: 17 probe sequences (one per flag 0-10 writer, ts / epoch thresholds, '
-                'disallow_OP_EVAL, eval_return, plugin-running instructions, INVOKE, SET/UNSET_FLAG) placed inside every '
+    rep.rule = ('MC: TapeVMMC family cfg: 19 probe sequences (one per flag 0-10 writer, ts / epoch thresholds, '
+                'disallow_OP_EVAL, eval_return, plugin-running instructions, INVOKE, SET/UNSET_FLAG, an endless loop and a '
+                'self-recursive function under callstack_limit = 8) placed inside every '
                 'nesting of {IF, IF_ELSE then, IF_ELSE else, TRY, EXCEPT, LOOP, DEF/CALL, EVAL} up to the depth bound with '
                 'MERKLEVAL / TAPROOT script path as innermost wrappers, and after each construct, x the embedder settings '
                 'that switch the probed behaviour x {0, 2} signature-extension plugins; invariants ConfigUniform, '
